@@ -157,6 +157,16 @@ def hashableL : List Val → Bool
 end
 
 mutual
+/-- a DataClass instance (not a Schema: that is a dict) somewhere inside: such an object hashes by identity -/
+def Val.hasDC : Val → Bool
+  | .node _ k _ items => (match k with | .inst _ false => true | _ => false) || hasDCL items
+  | _ => false
+def hasDCL : List Val → Bool
+  | [] => false
+  | v :: vs => v.hasDC || hasDCL vs
+end
+
+mutual
 /-- no data-class instance inside -/
 def Val.noInst : Val → Bool
   | .node _ k _ items => (match k with | .inst _ _ => false | _ => true) && noInstL items
@@ -465,7 +475,9 @@ def dedup : List Val → List Val
 /-- `t(items)` for a sequence class `t` — raises TypeError (→ ParseError) when a set gets an unhashable item -/
 def mkSeq (k : Kind) (items : List Val) (written : Bool) : Comp := fun s =>
   if k.isSet then
-    if hashableL items then mk k [] (dedup items) written s else (.error .perr, s)
+    if hashableL items then mk k [] (dedup items) written s
+    -- a DataClass instance is hashable (by identity) although it is a mutable object: sets of such are outside the fragment
+    else (.error (if hasDCL items then .unmodelled "set holding data-class instances (hashed by identity)" else .perr), s)
   else mk k [] items written s
 
 /-- `apply(value, origin, func=to_array_types)` for origin ∈ {list, tuple, set, frozenset}
